@@ -292,6 +292,54 @@ macro_rules! narrow_impl {
                 tm.print();
             }
 
+            // ---------------------------------------------------------------- C10
+            /// `planar` where exact arithmetic and IEEE arithmetic part ways: fovy = 0 (the documented orthographic case: the focal
+            /// point is at infinity, so it is never between the planes and nothing panics, wherever the planes are), height = 0
+            /// (inv_f infinite: the focal point is a zero), both (0/0: the assertion fails)
+            pub fn c10(_n: u64, seed: u64) {
+                let t = Tally::new(name("c10.planar_orthographic_case"));
+                let tz = Tally::new(name("c10.planar_zero_height"));
+                let mut s = seed ^ 0xc10;
+                let quiet = |f: &dyn Fn() -> Matrix4<S>| -> Option<Matrix4<S>> {
+                    std::panic::catch_unwind(std::panic::AssertUnwindSafe(|| f())).ok()
+                };
+                for i in 0..400u64 {
+                    let h = rnd(&mut s, 0.5, 4.0);
+                    let aspect = rnd(&mut s, 0.5, 2.0);
+                    // planes anywhere: both positive, both negative, straddling the origin, in either order
+                    let (n, f) = match i % 4 {
+                        0 => (rnd(&mut s, 0.1, 2.0), rnd(&mut s, 3.0, 50.0)),
+                        1 => (rnd(&mut s, -5.0, -1.0), rnd(&mut s, 3.0, 50.0)),
+                        2 => (rnd(&mut s, 3.0, 50.0), rnd(&mut s, -5.0, -1.0)),
+                        _ => (rnd(&mut s, -50.0, -3.0), rnd(&mut s, -2.0, -0.5)),
+                    };
+                    let m = quiet(&|| planar(Rad(0.0 as S), aspect, h, n, f));
+                    let ok = match m {
+                        Some(m) => {
+                            // the window of height h and width aspect*h maps to [-1,1]^2, z = -n to -1, z = -f to +1
+                            let c = m.transform_point(Point3::new(aspect * h / 2.0, h / 2.0, -n));
+                            let d = m.transform_point(Point3::new(-aspect * h / 2.0, -h / 2.0, -f));
+                            let tol = 64.0 * EPS;
+                            (c.x - 1.0).abs() <= tol && (c.y - 1.0).abs() <= tol && (c.z + 1.0).abs() <= tol * (1.0 + (n.abs() + f.abs()) / (n - f).abs())
+                                && (d.x + 1.0).abs() <= tol && (d.y + 1.0).abs() <= tol && (d.z - 1.0).abs() <= tol * (1.0 + (n.abs() + f.abs()) / (n - f).abs())
+                        }
+                        None => false,
+                    };
+                    t.rec(ok, || format!("planar::<{}>(fovy = 0, aspect = {:e}, height = {:e}, near = {:e}, far = {:e}) must not panic (focal point at infinity) and must map the window to [-1,1]^2, z=-n to -1, z=-f to +1; got {:?}",
+                        $tag, aspect, h, n, f, m));
+                    // height = 0 with a non-zero fovy: focal point 0 -- rejected exactly when 0 lies between the planes (inclusive)
+                    let fv = rnd(&mut s, 0.3, 2.5);
+                    let acc = quiet(&|| planar(Rad(fv), aspect, 0.0 as S, n, f)).is_some();
+                    let between = n.min(f) <= 0.0 && 0.0 <= n.max(f);
+                    tz.rec(acc == !between, || format!("planar::<{}>(fovy = {:e}, aspect = {:e}, height = 0, near = {:e}, far = {:e}): accepted = {}, 0 between the planes = {}", $tag, fv, aspect, n, f, acc, between));
+                    // height = 0 and fovy = 0: inv_f = 0/0, the focal-point assertion fails
+                    let nan = quiet(&|| planar(Rad(0.0 as S), aspect, 0.0 as S, n, f)).is_some();
+                    tz.rec(!nan, || format!("planar::<{}>(fovy = 0, height = 0, near = {:e}, far = {:e}) must panic (focal point NaN)", $tag, n, f));
+                }
+                t.print();
+                tz.print();
+            }
+
             // ---------------------------------------------------------------- C12
             /// from_homogeneous(k * to_homogeneous(p)) = p, exactly, for k a power of two of any size (no rounding occurs)
             pub fn c12(_n: u64, seed: u64) {
@@ -472,6 +520,7 @@ pub fn run(which: &str, n: u64, seed: u64) {
         "nrc04" => { f64n::c04(n, seed); f32n::c04(n, seed) }
         "nrc05" => { f64n::c05(n, seed); f32n::c05(n, seed) }
         "nrc08" => { f64n::c08(n, seed); f32n::c08(n, seed) }
+        "nrc10" => { f64n::c10(n, seed); f32n::c10(n, seed) }
         "nrc12" => { f64n::c12(n, seed); f32n::c12(n, seed) }
         "nrc13" => { f64n::c13(n, seed); f32n::c13(n, seed) }
         "nrc14" => { f64n::c14(n, seed); f32n::c14(n, seed) }
